@@ -11,6 +11,7 @@ mod c13;
 mod wrappers_gen;
 mod c14;
 mod c15;
+mod c17;
 mod c18;
 mod c19;
 mod gram;
@@ -33,6 +34,7 @@ fn main() {
         "C13" => c13::run(&args),
         "C14" => c14::run(&args),
         "C15" => c15::run(&args),
+        "C17" => c17::run(&args),
         "C18" => c18::run(&args),
         "C19" => c19::run(&args),
         "show" => {
